@@ -135,7 +135,13 @@ import GqlProofs.EndToEnd.LoadedWP
   hypothesis about the schema alone is an invariant of loader output (`loaded_*`,
   `GqlProofs/EndToEnd/Loaded.lean`, modulo the recorded non-object-root finding
   `rootTypesAreObjects`); `C08_parsed_loaded_iff_spec` is the capstone over a SOURCE TEXT and a
-  loaded schema, with only the semantic side conditions left (`C08SemanticHyps`).
+  loaded schema, with only the semantic side conditions left (`C08SemanticHyps`);
+  `C08_sources_iff_spec` takes the schema as source texts too (`ParseSchemas` → `load`).
+  `Spec.wellParented` is NOT an invariant of parser / loader output but a consequence of EITHER side of
+  the equivalence (`C08_wellParented_of_spec`, `C08_wellParented_of_rules`, `C08_wellParented_of_valid`;
+  `GqlProofs/EndToEnd/WellParented.lean`), so `C08_sources_iff_spec_wp` / `C08_parsed_loaded_iff_spec_wp`
+  need only `C08ResidualHyps` (selectRoot, rootKeys, defaultedLocations), the prelude and the
+  non-object-root finding.
 
   NOT finished (the full statement, kept as the goal):
     C08_verdict : Closed s → (validate defaultRules s d = .ok [] ↔ Spec.specValid s d = true)
